@@ -61,6 +61,10 @@ def run(ctx):
         if i % 2 == 0:
             cases.append(("combinedv", i, g, cfggen.lex_part(g) + "\n" + syntax_text(g), ["-a", "-v"]))
         cases.append(("nolexer", i, g, syntax_text(g), ["-a", "-no_lexer"]))
+        if i % 2 == 1:
+            # -no_lexer on a file that HAS a lexical part (hand-written scanner, token ids from the grammar): the lexical tokens,
+            # the ones no production mentions included, are terminals and must be numbered
+            cases.append(("nolexerfull", i, g, cfggen.lex_part(g) + "\n" + syntax_text(g), ["-a", "-no_lexer"]))
         cases.append(("lexonly", i, g, cfggen.lex_part(g), []))
     # one grammar with 300 token ids: token type numbers beyond 255 (a narrower integer type anywhere in the chain would wrap)
     bg = cfggen.big_cfg(rng, 300)
@@ -80,7 +84,7 @@ def run(ctx):
         dj = subprocess.run([ctx.verifdump, "lr", os.path.join(d, "g.bnf")], capture_output=True, text=True)
         dump = json.loads(dj.stdout)
         ws.add_driver(name, "tokdrv.go.tmpl")
-        if cfgname != "nolexer":
+        if cfgname not in ("nolexer", "nolexerfull"):
             ws.add_driver(name, "lexdrv.go.tmpl", sub="lexcmd")
         recs.append((cfgname, name, g, text, dump, d))
     bins, log = ws.build()
@@ -140,7 +144,7 @@ def run(ctx):
         if why is None and cfgname != "lexonly" and not want <= set(terms):
             why = "terminals of the grammar missing from the numbering: %s" % sorted(want - set(terms))
         # lexer emits these numbers
-        if why is None and cfgname != "nolexer":
+        if why is None and cfgname not in ("nolexer", "nolexerfull"):
             lb = bins.get((name, "lexcmd"))
             probe = [(i, s) for i, s in enumerate(terms) if i >= 2 and s != "empty" and s != "error" and (cfgname.startswith("combined") or s in dump["lexTokenIds"])]
             if lb and probe:
